@@ -228,6 +228,9 @@ package airgapped
 //@   modifies *
 //@   modifies $keyrings, $keyringSaved, $bufc, $ciphers
 //@   assert@call encrypt[C04.db.encrypted] content(key) == content(am.encryptionKey)
+// ... and only while a password is set: DropSensitiveData (the password expiry) sets the key to nil, scrypt accepts an empty
+// password, and a share written then would load without the operator's password (defect D21)
+//@   assert@call encrypt[C04.db.password] len(am.encryptionKey) > 0
 //@   assert@call Put[C04.db.encrypted] content(arg1) in $ciphers
 //@ func (*Machine).SaveKeysToDB
 //@   nosafety
@@ -235,6 +238,7 @@ package airgapped
 //@   modifies *
 //@   modifies $ciphers
 //@   assert@call encrypt[C04.db.encrypted] content(key) == content(am.encryptionKey)
+//@   assert@call encrypt[C04.db.password] len(am.encryptionKey) > 0
 //@   assert@call Put[C04.db.encrypted] (content(arg0) == bytesof("private_key") || content(arg0) == bytesof("public_key")) ==> (content(arg1) in $ciphers)
 
 // The signing step signs exactly the payloads of the common expansion of the proposal's tasks (C03), one partial
